@@ -200,6 +200,12 @@ def scenarios(pid, tier, seed):
             if dyn_mon.admissible(sc):
                 sc["rerun"] = True
                 out.append(("rerun", sc))
+    if pid in ("C01", "C02", "C03", "C12"):
+        # graphs inspected (exit_jobs, list, dot_format, closures, check_cycles), then edited, then run
+        for sc in dyn_gen.targeted(pid, rng, n_t // 6) + [dyn_gen.gen_tree(rng, depth=rng.choice([1, 2])) for _ in range(n_r // 8)]:
+            sc = dyn_gen.add_late(sc, rng)
+            if sc is not None:
+                out.append(("late-edits", sc))
     for i in range(n_r):
         adm = rng.random() < 0.85
         out.append(("random", dyn_gen.gen_tree(rng, depth=rng.choice([1, 2, 2, 3]), admissible=adm or pid == "C03")))
